@@ -683,14 +683,15 @@ def search(ctx):
     # per-network betas given as a dict / a mixing pool serving two named diseases: the order in which networks and
     # diseases are processed must not depend on the hash seed
     for k in range(ctx.budget(3, 6)):
-        cfg = dictbeta_cfg(ctx.rng)
+        cfg = dictbeta_cfg(ctx.rng); first = None
         if k == 2:
             # a table-driven module after simulations with other tables ran in THIS process, against a fresh interpreter
             cfg = impl.gen_sim_config(ctx.rng, small=True, diseases=['sis'], networks=['random'], demographics=[], allow_global_readers=False,
                                       time=dict(unit='year', dt=ctx.rng.choice([1.0, 0.5]), start=ctx.rng.choice([1996, 2000, 2004]), dur=6))   # (whole years: the table matters)
             cfg['demographics'] = [dict(type='deaths', death_table=dict(scale=200.0))]
             try:     # the same simulation with ANOTHER table (same years / sexes / ages, same time span) runs first in this process
-                make_sim(dict(cfg, rand_seed=cfg['rand_seed'] + 3, demographics=[dict(type='deaths', death_table=dict(scale=60.0))])).run()
+                first = dict(cfg, rand_seed=cfg['rand_seed'] + 3, demographics=[dict(type='deaths', death_table=dict(scale=60.0))])
+                make_sim(first).run()
             except Exception:
                 pass
         if k == 1:
@@ -706,7 +707,7 @@ def search(ctx):
             bad = sorted(k2 for k2 in set(a) | set(b) if a.get(k2) != b.get(k2))
             if bad:
                 for f in attribute(cfg, f'dict beta over three networks / pool over two diseases: results differ in a fresh interpreter (PYTHONHASHSEED={hs}): {bad[:4]}', channel='fresh-interpreter/hash-seed'):
-                    ctx.fail(f['signature'], f['what'], dict(kind='subprocess', cfg=cfg, hashseeds=[1, 2, 3, 4]))
+                    ctx.fail(f['signature'], f['what'], dict(kind='subprocess', cfg=cfg, hashseeds=[1, 2, 3, 4], first=first))
                 break
     # distribution objects the user created before the simulation (strict=False), SciPy- and NumPy-sampled families
     for fam in (sorted(USER_DISTS) if (ctx.thorough or ctx.broken) else ctx.rng.sample(sorted(USER_DISTS), 3)):
@@ -866,6 +867,7 @@ def replay(ctx, data):
     if k == 'diff':
         return oracle_diff(data['cfg'], data['hist']) is not None
     if k == 'subprocess':
+        if data.get('first'): make_sim(data['first']).run()     # what ran earlier in the process that found it
         a = digest(run_ref(data['cfg']))
         return any(b is not None and a != b for b in (run_subprocess(data['cfg'], 'run', hashseed=hs) for hs in data.get('hashseeds', (1, 2))))
     if k == 'userdist':
